@@ -107,6 +107,39 @@ pub fn check_print(rep: &mut Report, w: &[u32], seed: u64) -> bool {
     true
 }
 
+
+/// escape attempts, well-formed and malformed, as text fragments
+pub fn escape_fragments() -> (Vec<String>, Vec<String>) {
+    let hex = ["0", "2", "3", "a", "F", "9"];
+    let mut valid: Vec<String> = Vec::new();
+    let mut malformed: Vec<String> = Vec::new();
+    // four-digit form
+    for a in ["0041", "00e9", "FFFF", "d800", "2fff", "0000", "aBcD"] {
+        valid.push(format!("\\u{}", a));
+    }
+    // braced form: 1 to 5 digits, value <= 2FFFF
+    for a in ["0", "41", "A", "e9", "fff", "FFFF", "10000", "2FFFF", "2ffff", "00041", "0d800", "1F600"] {
+        valid.push(format!("\\u{{{}}}", a));
+    }
+    // malformed: wrong digit counts, bad characters, out-of-range values, missing braces
+    for a in ["", "3", "30", "30A", "30Ag", "g", "-", "{", "{}", "{g}", "{4", "{41", "{4g}", "{41 }", "{ 41}", "{30000}", "{3FFFF}", "{FFFFF}", "{fffff}", "{100000}", "{000041}", "{02ffff}", "{0000041}", "{00000000}", "{2FFFFF}", "{2FFFF", "{2FFF", "{AC", "{ACG}", "{ACg", "2C-", "2C", "AC0", "u0041", "{\\u0041}", "}"] {
+        malformed.push(format!("\\u{}", a));
+    }
+    for h in hex {
+        malformed.push(format!("\\u{}", h));
+        malformed.push(format!("\\u{}{}", h, h));
+        malformed.push(format!("\\u{}{}{}", h, h, h));
+        malformed.push(format!("\\u{{{}{}{}{}{}{}}}", h, h, h, h, h, h));
+        malformed.push(format!("\\u{{0{}{}{}{}{}}}", h, h, h, h, h));
+        malformed.push(format!("\\u{{{}{}{}", h, h, h));
+    }
+    malformed.push("\\".to_string());
+    malformed.push("\\\\".to_string());
+    malformed.push("\\U0041".to_string());
+    malformed.push("\\x41".to_string());
+    (valid, malformed)
+}
+
 pub fn run(p: &Params, rep: &mut Report) {
     let seed = p.seed;
     // (1) exhaustive texts over the escape alphabet
@@ -173,6 +206,58 @@ pub fn run(p: &Params, rep: &mut Report) {
     }
     rep.evals(singles);
     rep.count("single_code_points", singles);
+
+    // (3b) structured escape attempts: every ordered pair and triple of fragments (a malformed attempt that
+    //      already consumed digits followed by a well-formed escape, and so on), and all braced escapes with
+    //      0 to 8 digits over 6 hex symbols
+    let (valid, malformed) = escape_fragments();
+    let mut frags: Vec<&String> = valid.iter().collect();
+    frags.extend(malformed.iter());
+    let mut k = 0u64;
+    let mut structured = 0u64;
+    for a in &frags {
+        for b in &frags {
+            k += 1;
+            if k % p.nshards != p.shard {
+                continue;
+            }
+            let t: Vec<char> = format!("{}{}", a, b).chars().collect();
+            check_parse(rep, &t, seed);
+            rep.distinct_key(&escape_case(&t));
+            structured += 1;
+            // a third fragment from the well-formed ones, and a plain separator variant
+            for c in valid.iter().take(4) {
+                let t3: Vec<char> = format!("{}{}{}", a, b, c).chars().collect();
+                check_parse(rep, &t3, seed);
+                let t4: Vec<char> = format!("{}x{}", a, b).chars().collect();
+                check_parse(rep, &t4, seed);
+                structured += 2;
+            }
+        }
+    }
+    let hexs: Vec<char> = vec!['0', '2', '3', 'a', 'F', '9'];
+    let maxd = if p.thorough { 8 } else { 7 };
+    for len in 0..=maxd {
+        let count = (hexs.len() as u64).pow(len as u32);
+        let mut idx = p.shard;
+        while idx < count {
+            let digits = text_of(&hexs, idx, len);
+            let mut t: Vec<char> = vec!['\\', 'u', '{'];
+            t.extend(digits.iter());
+            t.push('}');
+            check_parse(rep, &t, seed);
+            t.push('0');
+            check_parse(rep, &t, seed);
+            if len >= 5 {
+                rep.distinct_key(&escape_case(&t));
+            }
+            structured += 2;
+            idx += p.nshards;
+        }
+    }
+    rep.evals(structured);
+    rep.count("structured_escape_texts", structured);
+    rep.sample(|| "structured: pairs/triples of escape fragments such as \\u{ACG}\\u0041, and \\u{dddddd} for all digit strings up to the stated length".to_string());
 
     // (4) random long texts and strings
     let mut rng = p.rng(8);
